@@ -28,6 +28,13 @@ def collect(ctx):
             # half of the histories with the caller's own reset() every few dozen samples - some of them fall into warning zones, some right after a drift
             rs = tuple(range(rng.randint(11, 40), 400, rng.choice([29, 37, 53]))) if rng.random() < 0.5 else ()
             ts.append(L.from_error(kind, drv_error.run(kind, p, burst_errors(rng, 400, nthr), resets=rs)))
+    for w in (3, 5, 10) * k:
+        # STEPD on an almost perfect classifier: an isolated error opens a warning zone that ends (the error leaves the recent window) without ever
+        # passing through "decreased but not significant"; much later accuracy breaks down - the recommendation of THAT zone starts and ends there
+        seq = []
+        for _ in range(3):
+            seq += [0] * (rng.randint(18, 24) * w) + [1] + [0] * (rng.randint(20, 26) * w) + [1] * (3 * w) + [0] * (2 * w)
+        ts.append(L.from_error("STEPD", drv_error.run("STEPD", {"window_size": w, "alpha_warning": rng.choice([0.2, 0.3]), "alpha_drift": rng.choice([0.001, 0.0005])}, seq)))
     for i in range(30 * k):
         p = drv_adwin.params(rng, small=rng.random() < 0.5)
         if i % 3 == 2:      # a large minimum window with frequent checks: after a cut the window is below the minimum for a long stretch
